@@ -573,5 +573,36 @@ def r11_12(ctx):
     return r
 
 
+def r11_13(ctx):
+    """RFC 6347 4.1 / 4.2.4: record sequence numbers are never reused, and a retransmitted flight goes out in NEW records
+    (same handshake messages, fresh epoch/sequence pairs). Implementations with an anti-replay window - the reference
+    DTLS stack does this during the handshake too - silently discard a record whose (epoch, sequence number) they have
+    seen. A flight that is re-sent byte for byte therefore carries no information for such a peer: if the peer's answer
+    (its final flight) was lost, the retransmissions are dropped as replays, the answer is never repeated and the
+    handshake fails although every retransmission was delivered. Decided: what the retransmission timer puts on the wire is not the stored record bytes themselves."""
+    r = RuleResult("R11.13", "K3/dataflow", "a retransmitted flight goes out in records with fresh sequence numbers")
+    n = 0
+    # only the TIMER-driven retransmission: it fires when our flight may well have arrived and the peer's answer was lost,
+    # which is exactly when the peer has already seen these records. (The two re-sends that answer a peer's own
+    # retransmission go to a peer that evidently lacks our flight: stored bytes are new to it.)
+    for b in [ctx.body(D + "handle_retransmit::{closure#0}")]:
+        for bi, t, p in b.calls():
+            if not (p and p.endswith("send_dtls_record_batch") and len(t["a"]) > 1 and bi not in b.cleanup):
+                continue
+            v = b.term_operand(t["a"][1])
+            if not mir.has_field(v, "last_flight_records"):
+                continue        # a freshly built flight
+            n += 1
+            rebuilt = mir.has(v, lambda x: x[0] == "call" and not x[1].startswith(("std::", "core::", "alloc::", "<std::", "<core::", "<alloc::")))
+            if rebuilt:
+                r.ok({"site": b.where(bi), "records": "re-encoded before sending"})
+            else:
+                r.violate(b.name, "resend:stored-records", b.where(bi),
+                          "the stored flight is re-sent byte for byte (same epoch and record sequence numbers): a peer with an anti-replay window "
+                          "discards every record of it, so a lost answer to this flight is never repeated")
+    r.need("re-send of the stored flight in handle_retransmit", n, 1)
+    return r
+
+
 def run(ctx):
-    return [r11_1(ctx), r11_2(ctx), r11_3(ctx), r11_4(ctx), r11_5(ctx), r11_6(ctx), r11_7(ctx), r11_8(ctx), r11_9(ctx), r11_10(ctx), r11_11(ctx), r11_12(ctx)]
+    return [r11_1(ctx), r11_2(ctx), r11_3(ctx), r11_4(ctx), r11_5(ctx), r11_6(ctx), r11_7(ctx), r11_8(ctx), r11_9(ctx), r11_10(ctx), r11_11(ctx), r11_12(ctx), r11_13(ctx)]
